@@ -145,26 +145,32 @@ Definition opt_ct (a : sx) : option (option TlbCore.ctree) :=
               end
   | _ => None
   end.
-Definition transfer_of_sx (a : sx) : option transfer :=
+Definition transfer_of_sx (a : sx) : option (res transfer) :=
   match a with
   | SL [SN kind; SN amount; SZ wc; SBytes addr; SB bounce; SN mode; body; code; data; SBytes comment] =>
       if N.eqb kind 0 then
         match opt_ct body, opt_ct code, opt_ct data with
         | Some b, Some c, Some d =>
-            Some (mktr amount wc (bytes_to_bits addr) bounce b
-                       (match c, d with Some c', Some d' => Some (c', d') | _, _ => None end) mode)
+            Some (Ok (mktr amount wc (bytes_to_bits addr) bounce b
+                           (match c, d with Some c', Some d' => Some (c', d') | _, _ => None end) mode))
+        | _, _, _ => None
+        end
+      else if N.eqb kind 2 then
+        (* wallet.ContractDeploy: destination = (workchain, hash of the state-init) *)
+        match opt_ct body, opt_ct code, opt_ct data with
+        | Some b, Some c, Some d => Some (deploy_transfer xhash wc c d b amount)
         | _, _, _ => None
         end
       else
-        Some (mktr amount wc (bytes_to_bits addr) bounce
-                   (match comment with [] => None | _ => Some (comment_body comment) end) None 3)
+        Some (Ok (mktr amount wc (bytes_to_bits addr) bounce
+                       (match comment with [] => None | _ => Some (comment_body comment) end) None 3))
   | _ => None
   end.
-Fixpoint transfers_of_sx (l : list sx) : option (list transfer) :=
+Fixpoint transfers_of_sx (l : list sx) : option (res (list transfer)) :=
   match l with
-  | [] => Some []
+  | [] => Some (Ok [])
   | a :: t => match transfer_of_sx a, transfers_of_sx t with
-              | Some x, Some xs => Some (x :: xs)
+              | Some x, Some xs => Some (do x' <- x; do xs' <- xs; Ok (x' :: xs'))
               | _, _ => None
               end
   end.
@@ -182,7 +188,7 @@ Definition run_body (a : sx) : sx :=
             (do w <- new_wallet (bytes_to_bits pk) v (opts_of_sx opts);
              (* with Sendables the carried cells are computed by the transfer model *)
              do ms <- match sendables, transfers_of_sx sendables with
-                      | _ :: _, Some ts => internal_msgs ts
+                      | _ :: _, Some ts => do ts' <- ts; internal_msgs ts'
                       | _, _ => Ok ms0
                       end;
              match v, exts_of_sx ext with
